@@ -263,6 +263,35 @@ func (tr *Tor) Kill() {
 	cancel()
 }
 
+// FillWriter makes storrent's writer queue to the remote r exactly full: r should have stopped reading; pieces are
+// announced (have / dont-have, as RunPex's congestion does) one at a time until the queue's length equals its
+// capacity.  One more message would fail.  False if the peer actor was not found or the queue did not fill.
+func (tr *Tor) FillWriter(r *Remote) bool {
+	ps, err := tr.T.GetPeers()
+	if err != nil {
+		return false
+	}
+	var sp *peer.Peer
+	for _, p := range ps {
+		if p.GetAddr() == r.Addr {
+			sp = p
+		}
+	}
+	if sp == nil {
+		return false
+	}
+	wr := reflect.ValueOf(sp).Elem().FieldByName("writer")
+	if !wr.IsValid() || wr.Kind() != reflect.Chan {
+		return false
+	}
+	np := tr.Geo.NumPieces()
+	for k := 0; k < 400 && wr.Len() < wr.Cap(); k++ {
+		tr.T.Have(uint32(k%np), (k/np)%2 == 0)
+		synctest.Wait()
+	}
+	return wr.Len() == wr.Cap()
+}
+
 // ParkLoop parks the torrent's event loop inside a handler (it answers a statistics query whose reply nobody
 // collects yet) and returns the function that releases it; nil if the query could not be queued.  While the
 // loop is parked everything sent to the torrent stays in its mailbox.
